@@ -106,10 +106,51 @@ def assert_repo_under_test():
             raise RuntimeError(f"{name} resolved to {f}, not under {repo}")
 
 
+_ENVIRONMENT = ("disk is full", "disk i/o error", "unable to open database", "no space left", "too many open files",
+                "cannot allocate memory", "database is locked", "readonly database")
+
+
+def raised_by_code_under_test(exc):
+    """Where an exception that escaped from a case came from: (True, 'file:function') when, after the last frame of this
+    harness, the traceback runs through the repository under test (the exception was raised by it or by a library it
+    called); (False, …) when the harness itself raised. Environment trouble (disk full, …) is never attributed to the code."""
+    repo = os.path.realpath(os.environ["AWVERIF_REPO"]) + os.sep
+    tb = traceback.extract_tb(exc.__traceback__)
+    last_own = max((i for i, f in enumerate(tb) if os.sep + "awverif" + os.sep in f.filename), default=-1)
+    after = [f for f in tb[last_own + 1:] if os.path.realpath(f.filename).startswith(repo)]
+    text = f"{type(exc).__name__}: {exc}".lower()
+    if isinstance(exc, (MemoryError, OSError)) or any(e in text for e in _ENVIRONMENT):
+        return False, "environment"
+    if after:
+        return True, f"{os.path.relpath(after[-1].filename, repo)}:{after[-1].name}"
+    return False, "harness"
+
+
+def guarded(mod, case, ctx):
+    """run_case, with an exception that escapes from the code under test turned into a violation of the case (every check
+    drives operations that the property's reference says succeed: on the unchanged tree no case raises) and an exception
+    of the harness itself recorded as a harness error without ending the worker."""
+    try:
+        return mod.run_case(case, ctx)
+    except Exception as ex:  # noqa: BLE001
+        mine, where = raised_by_code_under_test(ex)
+        if mine:
+            ctx.count("cases_ended_by_an_exception_from_the_code_under_test")
+            return [(f"unexpected-exception:{type(ex).__name__}@{where}",
+                     f"{type(ex).__name__}: {str(ex)[:300]} escaped from {where} in an operation the reference performs without error")], \
+                dict(sig=None, nontrivial=True)
+        if len(ctx.harness_errors) < 20:
+            ctx.harness_errors.append(traceback.format_exc())
+        ctx.count("cases_ended_by_a_harness_error")
+        if ctx.counters.get("cases_ended_by_a_harness_error", 0) > 200:
+            raise
+        return [], dict(sig=None, nontrivial=False)
+
+
 def default_worker(mod, ctx):
     while ctx.more():
         case = mod.gen_case(ctx.rng, ctx)
-        viols, info = mod.run_case(case, ctx)
+        viols, info = guarded(mod, case, ctx)
         ctx.record(case, viols, sig=info.get("sig"), nontrivial=info.get("nontrivial", True),
                    sample=info.get("sample"), weight=info.get("weight", 1),
                    nontrivial_weight=info.get("nontrivial_weight"))
@@ -136,7 +177,7 @@ def main():
             if hasattr(mod, "setup"):
                 mod.setup(ctx)
             if "replay" in a:
-                viols, info = mod.run_case(a["replay"], ctx)
+                viols, info = guarded(mod, a["replay"], ctx)
                 ctx.record(a["replay"], viols, sig=info.get("sig"), nontrivial=True)
             elif hasattr(mod, "worker"):
                 mod.worker(ctx)
